@@ -1,7 +1,8 @@
 (* C01 - a command never touches a plug the user did not name.
    ONLY statements; proofs are in Proofs/EnqueueProofs.v. *)
 From Coq Require Import List NArith ZArith Bool.
-From PM Require Import Base.Bytes Gen.GenConsts Model.Enqueue Proofs.EnqueueProofs.
+From PM Require Import Base.Bytes Base.Outcome Gen.GenConsts Model.ScriptAst Model.Enqueue Model.Script Spec.ScriptSem Proofs.EnqueueProofs.
+From PM Require Proofs.ScriptSim Proofs.ScriptRun Proofs.ScriptScope.
 Import ListNotations.
 Local Open Scope Z_scope.
 
@@ -64,3 +65,44 @@ Print Assumptions C01_same_command.
 Print Assumptions C01_variant_tables.
 Print Assumptions C01_uninvolved_device.
 Print Assumptions C01_plug_argument.
+
+(* ---------------------------------------------------------------------------------------------------------------
+   C01 down to the bytes.  For an action that dev_enqueue_actions selected for request (com, tgts) on device d and that
+   carries a plug list ps (the singlet and *_ranged variants), every run of the interpreter model - any script of at most 8
+   nesting levels, any schedule of device bytes, segmentations and clock steps, any oracle - queues for the device exactly
+   the send strings of a trace of the script's semantics (C08_refines), and in that trace `%s` is only ever replaced by the
+   name (or the range-compressed names) of plugs that belong to d AND are wired to a node the client named - provided the
+   script is one of the *_ranged ones or contains no foreach (which is what C17 establishes for the single-plug scripts of
+   every shipped specification; a foreach in any other script walks all plugs of the device by definition).
+   --------------------------------------------------------------------------------------------------------------- *)
+Theorem C01_bytes_name_only_targeted_plugs :
+  forall (rmatch : text -> text -> option pmatch) (compress : list text -> text) (sc : bool)
+         (d : edev) com tgts (q : qact) ps script client hascb tele hasdiag args d0 store0 ins,
+  In q (enqueue_dev d com tgts) -> qa_plugs q = Some ps ->
+  ScriptSim.bwf script -> (block_levels script <= 8)%nat -> (args <> None -> hasdiag = true) ->
+  sd_plugs d0 = ed_plugs d ->
+  (is_ranged_com (qa_com q) = true \/ ScriptScope.nofor script = true) ->
+  let a0 := create_action script (qa_com q) (Some ps) client hascb tele hasdiag args in
+  exists st dd a store tr raw,
+    ScriptSim.run rmatch compress sc ins d0 a0 store0 [] [] = Ok (st, dd, a, store, tr, raw) /\
+    sent_of tr = ScriptSim.raw_sent raw /\
+    Forall (fun o => match o with
+                     | OSend b => exists fmt qs, b = subst fmt (sem_arg compress qs) /\
+                                    forall p, In p (ScriptScope.plist qs) ->
+                                      In p (ed_plugs d) /\ exists n, pl_node p = Some n /\ In n tgts
+                     | _ => True
+                     end) tr.
+Proof.
+  intros rmatch compress sc d com tgts q ps script client hascb tele hasdiag args d0 store0 ins Hq Hps Hb Hl Ha Hd Hscope a0.
+  destruct (ScriptRun.script_refines rmatch compress sc script (Some ps) (qa_com q) client hascb tele hasdiag args d0 store0 ins Hb Hl
+              ltac:(intros _; discriminate) Ha) as (st & dd & a & store & tr & raw & Hrun & (s' & Hex & _) & Hsent).
+  exists st, dd, a, store, tr, raw. split; [exact Hrun|]. split; [exact Hsent|].
+  assert (Hown : Forall (ScriptScope.obs_in compress (ScriptScope.plist (Some ps))) tr).
+  { destruct Hscope as [Hr|Hn].
+    - rewrite Hr in Hex. exact (ScriptScope.script_names_own_plugs rmatch compress sc true (sd_plugs d0) script (Some ps) _ tr s' _ eq_refl Hex).
+    - exact (ScriptScope.script_names_own_plugs_nofor rmatch compress sc _ (sd_plugs d0) script (Some ps) _ tr s' _ Hn Hex). }
+  eapply Forall_impl; [|exact Hown]. intros o Ho. destruct o; try exact I.
+  destruct Ho as (fmt & qs & -> & Hin). exists fmt, qs. split; [reflexivity|].
+  intros p Hp. apply (p_C01_plugs_targeted d com tgts q ps Hq Hps p). apply Hin. exact Hp.
+Qed.
+Print Assumptions C01_bytes_name_only_targeted_plugs.
